@@ -1,17 +1,26 @@
 """C14 reproducer: a suggestion of the `induction` method fails outright (IndexError) when the goal is an implication.
-run:  cd /repo && /venv/bin/python /verif/tools/c14_repro.py"""
+mechanism key emitted by vf/props/c14.py:  induction:fails-outright:IndexError
+
+run:  cd /repo && PYTHONPATH=/repo /venv/bin/python /verif/tools/c14_repro.py
+
+tactic.var_induct instantiates the induction theorem  P 0 --> (!n. P n --> P (Suc n)) --> P x  with P := %n. goal and
+then takes ALL antecedents of the instantiated proposition as new sub-goals; when the goal is itself A --> B its
+antecedent A is counted as a third premise and apply_theorem indexes past the theorem's two assumptions.
+induction.search suggests the step for every goal that mentions a variable of the induction type.
+(160 of ~900 induction suggestions in one quick run over the library states fail this way, e.g. nat.less_lesseq
+after 2 recorded steps, goal 1.)
+"""
 import copy
-from logic import basic, context
+from logic import basic, context   # noqa
+from kernel.thm import Thm
+from kernel.proof import Proof
 from server import server, method
 from syntax import parser
 
 context.set_context('nat', vars={'n': 'nat'})
-state = server.parse_init_state(parser.parse_term('n = 0 --> n + 0 = n'))
-# make the implication itself the open goal (as after `cut`, or any sub-goal of that shape): line 0 is the goal
-from kernel.thm import Thm
-from kernel.proof import Proof
+state = server.parse_init_state(parser.parse_term('n + 0 = n'))   # only to get a state that knows the variable n
 state.prf = Proof()
-state.prf.add_item(0, 'sorry', th=Thm(parser.parse_term('n = 0 --> n + 0 = n')))
+state.prf.add_item(0, 'sorry', th=Thm(parser.parse_term('n = 0 --> n + 0 = n')))   # an open goal that is an implication
 state.check_proof(compute_only=True)
 sugg = [r for r in state.search_method('0', []) if r['method_name'] == 'induction']
 print('suggested:', [{k: v for k, v in r.items() if k != 'display'} for r in sugg])
